@@ -55,6 +55,42 @@ def mll(union, cat):
     return 2 * (f(mg) - f(um) - f(cm))
 
 
+def compositions(n, bins):
+    """all ways to put n events into the listed bins"""
+    if len(bins) == 1:
+        yield {bins[0]: n}
+        return
+    for k in range(n + 1):
+        for rest in compositions(n - k, bins[1:]):
+            d = dict(rest)
+            d[bins[0]] = k
+            yield d
+
+
+def check_resample_validity(ctx, name, td, union, n_obs, stat):
+    """The resampled tests draw, for every synthetic catalog, n_obs magnitudes from the union histogram.  Which ones is random,
+    but every entry of the test distribution must be the statistic of SOME histogram of n_obs events supported on the magnitude
+    bins the union catalog occupies (validity predicate over the output)."""
+    support = [k for k in range(len(union)) if union[k] > 0]
+    ncomb = math.comb(n_obs + len(support) - 1, len(support) - 1)
+    if ncomb > 30000:
+        ctx.count("skipped:resample_validity_too_many_histograms")
+        return
+    ach = []
+    for comp in compositions(n_obs, support):
+        h = [float(comp.get(k, 0)) for k in range(len(union))]
+        ach.append(stat(h))
+    ach.sort()
+    import bisect
+    ctx.count("resample_validity_checked:" + name)
+    for x in td:
+        i = bisect.bisect_left(ach, x)
+        near = [ach[j] for j in (i - 1, i) if 0 <= j < len(ach)]
+        if not any(rel(x, a) for a in near):
+            ctx.violation(name + ":distribution_entry_not_a_resample_statistic", {"entry": x, "nearest": near, "n_obs": n_obs, "support": support})
+            return
+
+
 def check_case(ctx, case):
     from csep.core import catalog_evaluations as CE
     from csep.core.forecasts import CatalogForecast
@@ -196,10 +232,14 @@ def check_case(ctx, case):
                 want_obs = d_stat(mobs, n_obs)
                 if len(td) != J or any(math.isnan(x) or math.isinf(x) for x in td):
                     ctx.violation("resampledM:distribution_size_or_finiteness", {"n": len(td), "J": J})
+                else:
+                    check_resample_validity(ctx, "resampledM", td, union, n_obs, lambda h: d_stat(h, n_obs))
             else:
                 want_obs = mll(union.tolist(), mobs.tolist())
                 if len(td) != J or any(math.isnan(x) or math.isinf(x) for x in td):
                     ctx.violation("MLL:distribution_size_or_finiteness", {"n": len(td), "J": J})
+                else:
+                    check_resample_validity(ctx, "MLL", td, union, n_obs, lambda h: mll(union.tolist(), list(h)))
             if not rel(got_obs, want_obs):
                 ctx.violation(name + ":observed_statistic_wrong", {"got": got_obs, "want": want_obs})
             if r.status != "normal":
